@@ -166,6 +166,11 @@ fn full_alphabet() -> Vec<Op> {
         Op::Copy { range: "A1:B2", dr: 1, dc: 1 },
         Op::Copy { range: "B2:C3", dr: -1, dc: -1 },
         Op::Copy { range: "A1:A3", dr: 0, dc: 2 },
+        // degenerate but legal arguments: nothing moves
+        Op::Move { range: "A1:B2", dr: 0, dc: 0 },
+        Op::Copy { range: "A1:B2", dr: 0, dc: 0 },
+        Op::InsRow { p: 2, n: 0 },
+        Op::RemCol { p: 2, n: 0 },
         Op::Cleanup,
         Op::CopyRowStyle { src: 1, dst: 2, from: None, to: None },
         Op::CopyRowStyle { src: 2, dst: 4, from: Some(1), to: Some(3) },
